@@ -211,6 +211,15 @@ def documents(tier):
         ('two-messages:different', '<mos><roStoryMove><roID>1</roID></roStoryMove><roCreate><roID>1</roID></roCreate></mos>'),
     ]:
         out.append((label, text, False))
+    # characters around the document: XML white space before / after the root is well-formed (not before an XML
+    # declaration); what Python's str.strip() also removes (NBSP, NEL, LS, FS...) is not XML white space, so the
+    # document is malformed.  The reference parser decides; the verdict must not depend on the source.
+    decl = '<?xml version="1.0" encoding="UTF-8"?>'
+    for cls, text in canon.items():
+        for k, (pre, post) in enumerate([('\n', ''), ('', '\n \t\r\n'), (' \n', '\n'), ('\u00a0', ''), ('', '\u00a0'), ('\u2028', ''),
+                                         ('', '\u0085'), ('\u3000', '\u3000'), ('\ufeff', ''), ('', '\x1c')]):
+            out.append((f'affix{k}:{cls}', pre + text + post, False))
+            out.append((f'affix{k}-decl:{cls}', pre + decl + text + post, False))
     # every proper prefix of each canonical document
     for cls, text in canon.items():
         step = 1 if tier == 'thorough' or len(text) < 400 else 3
@@ -335,6 +344,12 @@ def encoded_docs():
         for enc in ('ISO-8859-1', 'UTF-16', 'UTF-8', 'windows-1252'):
             yield (cls, enc, (f'<?xml version="1.0" encoding="{enc}"?>' + t).encode(enc))
         yield (cls, 'utf-8-bom', b'\xef\xbb\xbf' + t.encode('utf-8'))
+        # well-formed documents whose byte form ends / starts with bytes that bytes.strip() would remove
+        d16 = '<?xml version="1.0" encoding="UTF-16"?>\n' + t + '\n'
+        yield (cls, 'utf-16-be+newline', b'\xfe\xff' + d16.encode('utf-16-be'))
+        yield (cls, 'utf-16-le+newline', b'\xff\xfe' + d16.encode('utf-16-le'))
+        yield (cls, 'utf-16-be-tab', b'\xfe\xff' + (d16 + '\t').encode('utf-16-be'))
+        yield (cls, 'utf-8+newlines', ('<?xml version="1.0" encoding="UTF-8"?>\n' + t + '\n\n').encode('utf-8'))
 
 
 def bytes_worker(ns, items, res, opts):
